@@ -1,7 +1,19 @@
 (* dispatch_resample.ml -- entry-point table of group `resample` (hand-written, trusted) *)
 open Model
 
+(* "resample32": the same extracted model, run with a Num dictionary whose addition rounds to
+   binary32.  NumPy's ndarray.cumsum of a float32 array accumulates in binary32; every operand
+   of the model's only addition (cumsum_from) is then a binary32 value, and for binary32
+   operands the binary64 sum rounded once more to binary32 is the correctly rounded binary32
+   sum (53 >= 2*24 + 2: double rounding is innocuous).  Comparisons stay binary64: searchsorted
+   promotes the float32 table to the float64 variates exactly.  Int32.float_of_bits o
+   Int32.bits_of_float is the IEEE round-to-nearest-even conversion binary64 -> binary32. *)
+let round32 (x : Obj.t) : Obj.t =
+  Obj.repr (Int32.float_of_bits (Int32.bits_of_float (Obj.obj x : float)))
+let fnum32 (fnum : num) : num = { fnum with nadd = (fun a b -> round32 (fnum.nadd a b)) }
+
 let dispatch fnum z nat entry (is : int list) (xs : Obj.t list) : Obj.t list res =
   match entry with
   | "resample" -> run_resample fnum (List.map z is) xs
+  | "resample32" -> run_resample (fnum32 fnum) (List.map z is) xs
   | _ -> Err OtherError
